@@ -1020,3 +1020,38 @@ def impl_asm_select(kind, ys, value):
     if m.ev != want:
         return 'events %r, expected %r' % (m.ev, want)
     return None
+
+
+# ------------------------------------------------------------------------------------------
+# unit level: the fragmentation of TLSRecordLayer._sendMsg (plaintext connection state)
+def impl_fragment(k, ctype, data):
+    """Record payloads a fresh TLSConnection puts on the wire for one message with recordSize = k."""
+    from tlslite.api import TLSConnection
+    from tlslite.messages import Message
+    sock = ScriptSock(sscript=[('A', 10 ** 6)] * (len(data) + 3))
+    conn = TLSConnection(sock)
+    conn.version = (3, 3)
+    conn.recordSize = k
+    for _ in conn._sendMsg(Message(ctype, bytearray(data))):
+        pass
+    wire, recs, pos = bytes(sock.wire), [], 0
+    while pos < len(wire):
+        n = (wire[pos + 3] << 8) | wire[pos + 4]
+        if wire[pos] != ctype:
+            raise AssertionError('content type changed')
+        recs.append(wire[pos + 5:pos + 5 + n])
+        pos += 5 + n
+    return recs
+
+
+def gen_fragment_case(rng):
+    n = rng.choice([0, 1, 2, 3, 4, 7, 8, 12, 16, 31, 32, 33, 52, 64, 100, rng.randrange(0, 200)])
+    r = rng.random()
+    if r < 0.5 and n:
+        divs = [d for d in range(1, n + 1) if n % d == 0]
+        k = rng.choice(divs)                       # record size divides the message length
+    elif r < 0.7:
+        k = rng.choice([n + 1, max(1, n - 1), max(1, n)])
+    else:
+        k = rng.choice([1, 2, 3, 5, 16, 64, 16384])
+    return k, rng.choice([20, 21, 22, 22, 22, 23, 24]), rbytes(rng, n)
